@@ -77,17 +77,22 @@ Proof.
   - auto.
 Qed.
 
+Lemma step_Step pr st p q : procs st p = Some q -> step pr orc st (Step p) = step_proc pr orc st p q.
+Proof. intros H. unfold step. rewrite H. reflexivity. Qed.
+
 Lemma agree_solo n fuel : forall st st' p q,
   agree n st st' -> procs st p = Some q -> pform q = n ->
   agree n (solo New orc fuel st p) (solo New orc fuel st' p).
 Proof.
-  induction fuel as [|f IH]; intros st st' p q HA HP Hn; simpl; auto.
-  pose proof (ag_procs _ _ _ HA p) as E. rewrite <- E, HP.
-  destruct (step_keeps_proc New orc st (Step p) p q HP) as (q' & Hq' & Hf & _).
-  simpl in Hq'. rewrite HP in Hq'.
-  apply (IH _ _ p q'); auto.
-  - apply agree_step_proc; auto.
-  - congruence.
+  induction fuel as [|f IH]; intros st st' p q HA HP Hn.
+  - exact HA.
+  - rewrite !(solo_S orc).
+    assert (HP' : procs st' p = Some q) by (rewrite <- (ag_procs _ _ _ HA p); exact HP).
+    destruct (step_keeps_proc New orc st (Step p) p q HP) as (q' & Hq' & Hf & _).
+    apply (IH _ _ p q').
+    + rewrite (step_Step New st p q HP), (step_Step New st' p q HP'). apply agree_step_proc; auto.
+    + exact Hq'.
+    + congruence.
 Qed.
 
 (* the directory with the entries of all other forms removed *)
